@@ -113,6 +113,22 @@ Proof.
     apply (gu_to_buffer_exact _ Hok); [rewrite Hb; exact Hp|exact Hlen].
 Qed.
 
+Theorem buffer_needs_room bits sg pat sep buf :
+  is_width bits -> pat < 2 ^ bits ->
+  ((length buf <= length (sdec (to_Z bits sg pat)))%nat ->
+   int2string_buf bits sg buf pat = Fault OOBWrite) /\
+  ((length buf <= length (sgroup sep (to_Z bits sg pat)))%nat ->
+   grouped_int2string_buf bits sg buf pat sep = Fault OOBWrite).
+Proof.
+  intros Hw Hp. width bits Hw. unfold int2string_buf, grouped_int2string_buf. destruct sg.
+  - split; intros Hlen.
+    + apply s_to_buffer_short; [exact Hok|apply signed_in_range; assumption|exact Hlen].
+    + apply gs_to_buffer_short; [exact Hok|apply signed_in_range; assumption|exact Hlen].
+  - rewrite to_Z_unsigned, sdec_unsigned, sgroup_unsigned. split; intros Hlen.
+    + apply (u_to_buffer_short _ Hok); [rewrite Hb; exact Hp|exact Hlen].
+    + apply (gu_to_buffer_short _ Hok); [rewrite Hb; exact Hp|exact Hlen].
+Qed.
+
 (** round trip *)
 Theorem string_to_roundtrip bits sg pat :
   is_width bits -> pat < 2 ^ bits -> string_to bits sg (sdec (to_Z bits sg pat)) = Ok pat.
